@@ -94,6 +94,11 @@ class StmtMixin:
         c = cx.contract
         if c is None or not c.ghost or cx.spec or cx.fn_node is None:
             return states
+        if isinstance(stmt, (ast.For, ast.While)):
+            ls = loops_of(cx.fn_node)
+            key = "before:for#%d" % (ls.index(stmt) + 1) if stmt in ls else None
+            if key in c.ghost:
+                return self.exec_ghost(c.ghost[key], states, cx)
         if isinstance(stmt, ast.Raise):
             rs = sorted([n for n in ast.walk(cx.fn_node) if isinstance(n, ast.Raise)], key=lambda n: (n.lineno, n.col_offset))
             key = "before:raise#%d" % (rs.index(stmt) + 1) if stmt in rs else None
